@@ -314,6 +314,13 @@ func runC10(c *Ctx) {
 							}
 						}
 					}
+					// or dominated by a fact  <old P.link> == nil  (e.g. `if e := c.target(); e != nil {…} else {…}`)
+					for _, cm := range cmpsAt(st.Block()) {
+						if cm.Op == token.EQL && isNilConst(cm.Y) && sym(cm.X) == oldLinkSym {
+							c.ok("R-DETACH-INVALIDATE", key, st.Pos(), "insertion at the end (old link compared equal to nil)")
+							return
+						}
+					}
 				}
 				c.bad("R-DETACH-INVALIDATE", key, st.Pos(), "a fresh entry replaces the successor without linking to it and without the position being at the end: the tail of the list is dropped uninvalidated")
 				return
@@ -572,14 +579,55 @@ func runC10(c *Ctx) {
 
 	// ---- R-YIELD
 	var yf []*ssa.Function
-	yf = append(yf, P.Func("stack", "Stack", "Each"), P.Func("mlink", "List", "Each"), P.Func("mlink", "Queue", "Each"), P.Func("ring", "Ring", "Each"), P.Func("ring", "", "scan"))
-	for _, f := range yf {
+	for _, a := range [][2]string{{"stack", "Stack"}, {"mlink", "List"}, {"mlink", "Queue"}, {"ring", "Ring"}} {
+		f := P.Func(a[0], a[1], "Each")
 		if f == nil {
-			c.undecided("ANCHOR", "Each iterators", 0, "an Each/scan function was not found")
+			c.undecided("ANCHOR", "Each iterators", 0, a[0]+"."+a[1]+".Each was not found")
 			return
 		}
+		yf = append(yf, f)
 	}
-	yf = append(yf, yf[3].AnonFuncs...)
+	// helpers of the same package that are handed the yield function (or a closure over it), and closures
+	seenY := map[*ssa.Function]bool{}
+	for _, f := range yf {
+		seenY[f] = true
+	}
+	for i := 0; i < len(yf) && i < 64; i++ {
+		f := yf[i]
+		for _, a := range f.AnonFuncs {
+			if !seenY[a] {
+				seenY[a] = true
+				yf = append(yf, a)
+			}
+		}
+		allInstrs(f, func(in ssa.Instruction) {
+			call, ok := in.(*ssa.Call)
+			if !ok {
+				return
+			}
+			cal := origin(staticCallee(&call.Call))
+			if cal == nil || cal.Blocks == nil || cal.Pkg == nil || f.Pkg == nil && f.Parent() == nil || seenY[cal] {
+				return
+			}
+			pk := f.Pkg
+			if pk == nil && f.Parent() != nil {
+				pk = f.Parent().Pkg
+			}
+			if origin(f).Pkg != nil {
+				pk = origin(f).Pkg
+			}
+			if pk == nil || cal.Pkg != pk {
+				return
+			}
+			for _, p := range cal.Params {
+				if isYieldType(p.Type()) {
+					seenY[cal] = true
+					yf = append(yf, cal)
+					return
+				}
+			}
+		})
+	}
 	ruleYield(c, yf)
 }
 
